@@ -17,8 +17,8 @@
    ([w_lists_ok]), the bytes the template produces ([w_gen]), what a failed write leaves
    ([w_partial]), whether GOCACHE is set, whether the hashed executable exists, how many
    mage:import packages there are, the exit status of the compiled binary.  [w_fixed] = false is
-   the code before commit d5ea0c0 (no removeStaleMainfile); [w_cleanup] = true is a FUTURE repair
-   (the generated file is removed again when writing it fails), false is the code that exists.
+   the code before commit d5ea0c0 (no removeStaleMainfile); [w_cleanup] = false is the
+   code before commit 1372a21 (a failed write of the generated file left it behind).
 
    Not modelled: os.Remove / os.RemoveAll failing (the code ignores these errors; the property's
    quantifier does not list them), what a target does to the directory, a chain of symbolic
@@ -113,7 +113,7 @@ Inductive gocall := GVersion | GEnvGocache | GEnv | GList | GBuild.
 
 Record world := {
   w_fixed : bool;               (* removeStaleMainfile present (commit d5ea0c0) *)
-  w_cleanup : bool;             (* a failed GenerateMainfile removes the file again unless -keep: NOT in the current code *)
+  w_cleanup : bool;             (* GenerateMainfile removes the file on its write/close/chtimes error paths (commit 1372a21) *)
   w_gen : bytes;                (* what the template writes for this package *)
   w_partial : bytes;            (* what a failing write leaves in the file *)
   w_lists_ok : entry -> bool;   (* go/build accepts the directory with this entry named mage_output_file.go *)
@@ -176,11 +176,13 @@ Variable fl : flags.
 (* a fallible step that touches nothing *)
 Definition fallible (st : step) (s : state) : res := if faults st then Exit 1 s else Cont s.
 
-(* GenerateMainfile returned an error: main.go:441-445 returns 1 BEFORE the deferred removal is
-   registered, the file stays ([w_cleanup] = false).  [w_cleanup] = true is a repaired Invoke that
-   removes the file on this path unless -keep. *)
+(* GenerateMainfile's three error paths after os.Create succeeded (template.Execute, f.Close,
+   os.Chtimes): since commit 1372a21 each of them does os.Remove(path) before returning, whether
+   or not -keep is given ([w_cleanup] = true).  Before that commit the file stayed, because Invoke
+   returns on this error before the deferred removal is registered ([w_cleanup] = false).
+   A failing os.Create leaves nothing new and removes nothing. *)
 Definition cleanup (s : state) : state :=
-  if w_cleanup w && negb (f_keep fl) then with_fs s (remove mainfile (s_fs s)) else s.
+  if w_cleanup w then with_fs s (remove mainfile (s_fs s)) else s.
 
 Definition exec (st : step) (s : state) : res :=
   let d := s_fs s in
